@@ -85,7 +85,8 @@ class Work(object):
         self.not_built = set()
         self.info = {}
         S = R.S
-        for f in ("vf_c13_ep_map_u", "vf_c13_ep_map_c", "vf_c13_ep_iso", "vf_c13_ep2_map_u"):
+        for f in ("vf_c13_ep_map_u", "vf_c13_ep_map_c", "vf_c13_ep_iso", "vf_c13_ep2_map_u", "vf_c13_ep2_map_c",
+                  "vf_c13_ep2_iso"):
             try:
                 getattr(S, f).restype = ctypes.c_void_p
             except AttributeError:
@@ -119,6 +120,48 @@ class Work(object):
             R.ctx = old
             R.free(new)
         return leave
+
+    # ================================================================= message expansion at the lengths the maps request
+    def xmd_checks(self, lengths, why):
+        """md_xmd (the variant MD_MAP selects) against the model's expand_message_xmd at exactly the output lengths
+        the documented constructions of this configuration request (count * m * L, + 1 for SwiftEC), at the 8-bit
+        boundary of the length prefix (255, 256, 257, 511, 512) and with the domain separation tags the maps use"""
+        ctx, R, rng = self.ctx, self.R, self.rng
+        if not self.has("md_xmd"):
+            return
+        tgt = R.target("md_xmd")
+        alg = {"md_xmd_sh224": "sha224", "md_xmd_sh256": "sha256", "md_xmd_sh384": "sha384",
+               "md_xmd_sh512": "sha512"}.get(tgt)
+        if alg is None:
+            self.info["md_xmd_not_modelled"] = tgt
+            return
+        self.info.setdefault("xmd_lengths_requested_by_maps", {}).update({str(k): v for k, v in why.items()})
+        for n in sorted(set(lengths) | {255, 256, 257, 511, 512}):
+            for dst in (h2c.DST, h2c.DST_NUL):
+                for ml in (0, 3, 64, 130):
+                    msg = gen_msg(rng, ml)
+                    cls = "map-length" if n in why else "boundary"
+                    key = "md_xmd|%s|n=%d|dst%d" % (cls, n, len(dst))
+                    if not ctx.begin(key, {"n": n, "dst": dst.hex(), "msg": msg.hex()[:160], "used_by": why.get(n)}):
+                        continue
+                    bm, bd = R.put(msg), R.put(dst)
+                    out = R.mem(n, 0xC3)
+                    try:
+                        res = R.call("md_xmd", out, n, bm, len(msg), bd, len(dst))
+                        if res.caught:
+                            ctx.check(False, key + "|unexpected-error", {"err": res.err})
+                        else:
+                            got = R.get(out, n)
+                            exp = h2c.xmd(msg, dst, n, alg)
+                            ctx.check(got == exp, key + "|construction",
+                                      {"got": got[:48].hex(), "model": exp[:48].hex(), "alg": alg})
+                    except MonitorViolation as e:
+                        ctx.fail(key + "|" + e.kind, e.detail)
+                    finally:
+                        ctx.end()
+                        R.free(bm)
+                        R.free(bd)
+                        R.free(out)
 
     # ================================================================= prime curves
     def ep_setup(self, name, ident):
@@ -420,10 +463,13 @@ class Work(object):
         for f in ("ep_map_dst", "ep_map_rnd"):
             self.has(f)
         idx = 0
+        xl = {}
         for nm, ident in ids:
             cv = self.ep_setup(nm, ident)
             if cv is None:
                 continue
+            for n_, w_ in ((cv.elm, "ep_map_basic"), (2 * cv.elm, "ep_map_sswum"), (2 * cv.elm + 1, "ep_map_swift")):
+                xl[n_] = (xl.get(n_, "") + " " + w_ + ":" + nm).strip()
             fl = list(fns)
             if cv.P["pairf"] and self.has("g1_map"):
                 fl.append("g1_map")
@@ -475,6 +521,8 @@ class Work(object):
                 if ctx.mine(idx):
                     self.ep_determinism(cv, fn, gen_msg(rng, rng.choice([0, 5, 64, 130])), others)
             ctx.add("curves_instantiated", 1)
+        if ctx.shard == 0:
+            self.xmd_checks(list(xl), xl)
 
     # ================================================================= curves over Fp2 (G2 of the pairing sets)
     def ep2_read(self, F2, ptr):
@@ -518,7 +566,133 @@ class Work(object):
                                   {"why": "model: u^2 = qnr irreducible, G2 on the twist, [r]G2 = O"})
             finally:
                 ctx.end()
+        tw.model = None
+        try:
+            self.epx_model(tw, P)
+        except (ArithmeticError, ValueError, ZeroDivisionError) as e:
+            self.info.setdefault("ep2_construction_not_modelled", {})[name] = repr(e)[:200]
         return tw
+
+    def epx_model(self, tw, P):
+        """everything the model needs to evaluate ep2_map_sswum / ep2_map_basic itself: the map over Fp2 (non-square
+        and isogeny read from the library and validated), and cofactor clearing through the endomorphism psi, whose two
+        constants are measured with ep2_frb on (1, 1) and validated by the model (psi maps the twist to itself and
+        satisfies psi^2 - t psi + p = 0 with t the trace of Frobenius of E/Fp)"""
+        ctx, R, S = self.ctx, self.R, self.R.S
+        F2, p = tw.F2, tw.p
+        M = h2c.Fp2Maps(F2, tw.a, tw.b)
+        tw.M = M
+        tw.lpe = (self.K["FP_PRIME"] + R.L.ep_param_level() + 7) // 8
+        rd2 = lambda ptr: tuple(R.fpx_get(ptr, 2)[0])
+        good = True
+        ctmap = bool(R.L.ep2_curve_is_ctmap())
+        tw.u = rd2(S.vf_c13_ep2_map_u())
+        if ctmap or (not F2.is_zero(tw.a) and not F2.is_zero(tw.b)):
+            if ctmap:
+                tw.maptype = "sswu-iso"
+                iso = dict(A=rd2(S.vf_c13_ep2_iso(0, 0)), B=rd2(S.vf_c13_ep2_iso(1, 0)))
+                for f, nm in ((2, "xn"), (3, "xd"), (4, "yn"), (5, "yd")):
+                    iso[nm] = [rd2(S.vf_c13_ep2_iso(f, i)) for i in range(S.vf_c13_ep2_iso_deg(f) + 1)]
+                tw.iso = iso
+                good = good and not M.is_sqr(tw.u)
+                for t in ((1, 0), (0, 1), (2, 3), F2.rand(self.rng)):
+                    Q = M.iso_map(M.sswu(t, tw.u, iso["A"], iso["B"]), iso)
+                    good = good and Q is not None and tw.C.on_curve(Q)
+            else:
+                tw.maptype = "sswu"
+                tw.iso = None
+                good = good and not M.is_sqr(tw.u)
+        else:
+            tw.maptype = "svdw"
+            tw.svdwc = M.svdw_consts(tw.u)
+        # psi(x, y) = (gx * conj(x), gy * conj(y))
+        one = R.mem(self.K["sizeof_ep2_st"], 0)
+        out = R.mem(self.K["sizeof_ep2_st"], 0)
+        for off in ("x", "y", "z"):
+            R.fpx_put(one + self.K["off_ep2_st_" + off], [1, 0])
+        R.wr_int(one + self.K["off_ep2_st_coord"], self.K["BASIC"])
+        r = R.call("ep2_frb", out, one, 1)
+        gx, gy, gz, co, can = self.ep2_read(F2, out)
+        R.free(one)
+        R.free(out)
+        tw.gx, tw.gy = gx, gy
+        psi = lambda Q: None if Q is None else (F2.mul(gx, M.conj(Q[0])), F2.mul(gy, M.conj(Q[1])))
+        tw.psi = psi
+        # a model-made point of the twist
+        while True:
+            x = F2.rand(self.rng)
+            y = M.sqrt(M.g(x))
+            if y is not None:
+                break
+        T = (x, y)
+        C = tw.C
+        trace = p + 1 - P["n"] * P["h"]
+        lhs = C.add(C.sub(psi(psi(T)), C.mul(trace, psi(T))), C.mul(p, T))
+        good = good and not r.caught and gz == F2.one and C.on_curve(psi(T)) and lhs is None
+        z = R.bn_new()
+        R.call("fp_prime_get_par", z)
+        tw.z = R.bn_val(z)
+        R.bn_free(z)
+        fam = None
+        for nm_, v_ in R.EH.get("relic_ep.h", {}).items():
+            if nm_.startswith("EP_") and v_ == P["pairf"]:
+                fam = nm_
+                break
+        tw.fam = fam
+        if fam not in ("EP_BN", "EP_B12"):
+            raise ValueError("cofactor clearing of family %s is not modelled" % fam)
+        if ctx.begin("setup|ep2|%s|map-constants" % tw.name, {"curve": tw.name}, nontrivial=False):
+            ok = ctx.check(good, "setup|ep2|%s|map-constants" % tw.name,
+                           {"why": "non-square / isogeny / psi fail their defining conditions in the model"})
+            ctx.end()
+            if not ok:
+                return
+        elif not good:
+            return
+        tw.model = True
+        self.info.setdefault("ep2_maps", {})[tw.name] = "%s L=%d %s" % (tw.maptype, tw.lpe, fam)
+
+    def ep2_clear(self, tw, Q):
+        """ep2_mul_cof as the source documents it (Fuentes-Castaneda et al. for BN, Budroni-Pintore for BLS12)"""
+        C, psi, z = tw.C, tw.psi, tw.z
+        if Q is None:
+            return None
+        if tw.fam == "EP_BN":
+            t0 = C.mul(z, Q)
+            t1 = psi(C.mul(3, t0))
+            return C.add(C.add(C.add(psi(psi(psi(Q))), t0), t1), psi(psi(t0)))
+        t0 = C.mul(z, Q)
+        t1 = C.mul(z, t0)
+        t2 = C.sub(C.sub(t1, t0), Q)
+        t2 = C.add(t2, psi(C.sub(t0, Q)))
+        return C.add(t2, psi(psi(C.dbl(Q))))
+
+    def ep2_map_one(self, tw, t):
+        M = tw.M
+        if tw.maptype == "svdw":
+            return M.svdw(t, tw.u, tw.svdwc)
+        if tw.maptype == "sswu":
+            return M.sswu(t, tw.u)
+        return M.iso_map(M.sswu(t, tw.u, tw.iso["A"], tw.iso["B"]), tw.iso)
+
+    def ep2_model(self, tw, target, msg):
+        """-> list of acceptable points, or None when the entry point has no model here"""
+        if not tw.model:
+            return None
+        p, L, C = tw.p, tw.lpe, tw.C
+        if target == "ep2_map_sswum":
+            # hash_to_field: 4 L bytes with DST "RELIC" (5 bytes), element i = (bytes[2iL:(2i+1)L], bytes[(2i+1)L:(2i+2)L])
+            r = h2c.xmd(msg, h2c.DST, 4 * L)
+            e = [int.from_bytes(r[i * L:(i + 1) * L], "big") % p for i in range(4)]
+            Q = C.add(self.ep2_map_one(tw, (e[0], e[1])), self.ep2_map_one(tw, (e[2], e[3])))
+            return [self.ep2_clear(tw, Q)]
+        if target == "ep2_map_basic":
+            import hashlib
+            d = hashlib.sha256(msg).digest()
+            x, y = tw.M.tai(int.from_bytes(d[:min(self.K["RLC_FP_BYTES"], 32)], "big"))
+            Q = self.ep2_clear(tw, (x, y))
+            return [Q, C.neg(Q)]
+        return None
 
     def ep2_hash_case(self, tw, fn, msg, extra=None):
         ctx, R = self.ctx, self.R
@@ -550,6 +724,13 @@ class Work(object):
             Q = (x, y)
             if ctx.check(tw.C.on_curve(Q), key + "|on-curve"):
                 ctx.check(tw.C.mul(tw.r, Q) is None, key + "|order")
+            try:
+                exp = self.ep2_model(tw, R.target(fn), msg)
+            except ArithmeticError:
+                exp = None
+            if exp is not None:
+                ctx.check(any(tw.C.eq(Q, E) for E in exp), key + "|construction",
+                          {"got": repr(Q)[:400], "model": repr(exp)[:800]})
             ctx.check(R.get(buf, len(msg)) == msg, key + "|msg-modified")
             return Q
         except MonitorViolation as e:
@@ -636,6 +817,9 @@ class Work(object):
                               {"curve": name, "msg": msg.hex()[:160]}, lambda: R.pairing_set(name), churn)
             self.consistent_rejection("ep2")
             ctx.add("curves_instantiated", 1)
+            if ctx.shard == 0:
+                L_ = (self.K["FP_PRIME"] + R.L.ep_param_level() + 7) // 8
+                self.xmd_checks([4 * L_, 4 * L_ + 1], {4 * L_: "ep2_map_sswum:" + name, 4 * L_ + 1: "ep2_map_swift:" + name})
 
     # ================================================================= binary curves
     def part_eb(self):
@@ -749,6 +933,8 @@ class Work(object):
                 continue
             Lb = (K["FP_PRIME"] + L.ed_param_level() + 7) // 8
             self.info["ed_bytes_per_element"] = Lb
+            if ctx.shard == 0:
+                self.xmd_checks([2 * Lb], {2 * Lb: "ed_map:" + nm})
             nb = R.bn_new()
             R.call("ed_curve_get_ord", nb)
             if ctx.begin("setup|ed|" + nm, {"curve": nm}, nontrivial=False):
